@@ -123,13 +123,63 @@ var extTypes = []struct{ j5, full, kind string }{
 	{"any", "j5.types.any.v1.Any", "any"},
 }
 
-// textNoise: attributes the compiler accepts and the compared output must not depend on
+var descTexts = []string{"a field", "the id", "x", "with \"quotes\"", "Two  spaces, a comma; and a colon: here.", "trailing space ", "// looks like a comment", "unicode \u00e9\u00df"}
+
+// textNoise: an attribute the compiler accepts and the compared output must not depend on (an
+// explicit protoField number), and a description (compared: it becomes the field's leading comment)
 func textNoise(r *vh.Rand, u *uField) {
 	if r.Chance(8) {
 		u.ProtoField = vh.Pick(r, []int{1, 2, 3, 7, 11, 40})
 	}
-	if r.Chance(6) {
-		u.Desc = vh.Pick(r, []string{"a field", "the id", "x", "with \"quotes\""})
+	if r.Chance(10) {
+		u.Desc = vh.Pick(r, descTexts)
+	}
+}
+
+// addDescriptions: descriptions of the elements that are not fields. Events, statuses, the schemas
+// of the block and enum options keep theirs (leading comments); the entity's, a command's, a
+// method's and a summary's description is accepted and appears nowhere in the output.
+func addDescriptions(r *vh.Rand, d *entityDecl) {
+	for i := range d.Events {
+		if r.Chance(15) {
+			d.Events[i].Desc = vh.Pick(r, descTexts)
+		}
+	}
+	if r.Chance(15) {
+		d.StatusDesc = make([]string, len(d.Status))
+		for i := range d.Status {
+			if r.Chance(60) {
+				d.StatusDesc[i] = vh.Pick(r, descTexts)
+			}
+		}
+	}
+	for i := range d.Schemas {
+		if r.Chance(20) {
+			d.Schemas[i].Desc = vh.Pick(r, descTexts)
+		}
+		if d.Schemas[i].Kind == 2 && r.Chance(30) {
+			d.Schemas[i].OptionDesc = make([]string, len(d.Schemas[i].Options))
+			for j := range d.Schemas[i].Options {
+				if r.Chance(60) {
+					d.Schemas[i].OptionDesc[j] = vh.Pick(r, descTexts)
+				}
+			}
+		}
+	}
+	for i := range d.Commands {
+		if r.Chance(10) {
+			d.Commands[i].Desc = vh.Pick(r, descTexts)
+		}
+		for j := range d.Commands[i].Methods {
+			if r.Chance(10) {
+				d.Commands[i].Methods[j].Desc = vh.Pick(r, descTexts)
+			}
+		}
+	}
+	for i := range d.Summaries {
+		if r.Chance(10) {
+			d.Summaries[i].Desc = vh.Pick(r, descTexts)
+		}
 	}
 }
 
@@ -171,6 +221,10 @@ func genAnyField(r *vh.Rand, name string) uField {
 // genInline: a field whose type is an anonymous schema defined in place (nested in the message)
 func genInline(r *vh.Rand, name string) uField {
 	u := uField{Name: name, Required: r.Chance(20), Bang: r.Bool(), PType: 11}
+	if r.Chance(15) {
+		// the description written inside the anonymous schema is the FIELD's description
+		u.Desc = vh.Pick(r, descTexts)
+	}
 	simple := func(n int) []uField {
 		ns := nameSet{}
 		var out []uField
@@ -535,6 +589,7 @@ func genEntityOpt(r *vh.Rand, second bool, forcedName string) *entityDecl {
 		}
 		d.Query = q
 	}
+	addDescriptions(r, d)
 	return d
 }
 
